@@ -49,10 +49,22 @@ impl Fl for f32 {
     }
 }
 
-/// value of a named operand: integer geometry in a frame 2^k (real coordinate = int * 2^k)
+/// Frames: how the integer lattice is presented to the library.
+///   |k| < 1000 : real coordinate = int * 2^k   (exact; scaling law C08)
+///   k = 1000+d : real coordinate = int / d     (d = 3, 7, 10: not representable; only used for
+///                axis-parallel operands, whose combinatorics is preserved by any monotone map
+///                of each axis and whose results consist of input coordinates only)
+pub fn frame_value(n: f64, k: i32) -> f64 {
+    if k >= 1000 {
+        n / (k - 1000) as f64
+    } else {
+        n * 2f64.powi(k)
+    }
+}
+
+/// value of a named operand: integer geometry in frame k
 pub fn to_geo<F: Fl>(mp: &IMp, k: i32) -> MultiPolygon<F> {
-    let s = 2f64.powi(k);
-    let ls = |r: &Vec<P>| LineString(r.iter().map(|p| Coord { x: F::from_f64(p.0 as f64 * s), y: F::from_f64(p.1 as f64 * s) }).collect());
+    let ls = |r: &Vec<P>| LineString(r.iter().map(|p| Coord { x: F::from_f64(frame_value(p.0 as f64, k)), y: F::from_f64(frame_value(p.1 as f64, k)) }).collect());
     MultiPolygon(mp.iter().map(|p| Polygon::new(ls(&p.ext), p.holes.iter().map(ls).collect())).collect())
 }
 
@@ -76,10 +88,27 @@ pub fn fnv(h: &mut u64, x: u64) {
 /// `k`: frame exponent (the value is divided by 2^k, exactly, before snapping);
 /// `mag`: magnitude of the input coordinates in the integer frame (>= 1).
 pub fn snap<F: Fl>(mp: &MultiPolygon<F>, k: i32, mag: f64) -> Snapped {
-    let s = 2f64.powi(-k);
     let mut h: u64 = 0xcbf2_9ce4_8422_2325;
     let mut one = |c: F, h: &mut u64| -> (i64, i64) {
-        let v = c.to_f64() * s; // exact: power of two, no subnormals in the frames used
+        if k >= 1000 {
+            // non-representable frame: a coordinate is exact iff it is bit-identical to the
+            // presentation of an integer
+            let raw = c.to_f64();
+            fnv(h, raw.to_bits());
+            if !raw.is_finite() {
+                return (COORD_CAP as i64, DEV_CAP);
+            }
+            let n = (raw * (k - 1000) as f64).round();
+            if n.abs() > COORD_CAP {
+                return ((COORD_CAP as i64) * if n < 0.0 { -1 } else { 1 }, DEV_CAP);
+            }
+            if F::from_f64(frame_value(n, k)).to_f64() == raw {
+                return (n as i64, 0);
+            }
+            let d = ((raw * (k - 1000) as f64 - n).abs() / mag / F::UNIT).ceil().max(1.0);
+            return (n as i64, if d >= DEV_CAP as f64 { DEV_CAP } else { d as i64 });
+        }
+        let v = c.to_f64() * 2f64.powi(-k); // exact: power of two, no subnormals in the frames used
         fnv(h, v.to_bits());
         if !v.is_finite() {
             return (COORD_CAP as i64, DEV_CAP);
